@@ -800,4 +800,209 @@ package tsm1
 //@   loop 1 invariant cache_still_sorted: all(i, 0, len(cvals), all(j, i+1, len(cvals), value_ts(cvals[i]) < value_ts(cvals[j])))
 //@   loop 1 invariant heads_are_older_than_the_last_point: pos > 0 ==> (c.cache.pos >= 0 ==> value_ts(cvals[c.cache.pos]) < c.res.Timestamps[pos-1]) && (c.tsm.pos >= 0 ==> tvals.Timestamps[c.tsm.pos] < c.res.Timestamps[pos-1])
 
+// ---- C02: the InfluxQL cursors (iterator.gen.go) overlay cache on TSM values one point per call ----
+// next<T> returns the head that comes first in the direction of travel and leaves BOTH heads strictly beyond the
+// returned timestamp (on a tie both sides advance and the cache value is the one returned). Sortedness is carried
+// from call to call (ensures still_sorted = the next call's requires).
+
+//@ func (*booleanAscendingCursor).nextTSM
+//@   assumed
+//@   modifies *except c.cache c.cache.values[:]
+//@   ensures block_is_sorted: all(i, 0, len(c.tsm.values), all(j, i+1, len(c.tsm.values), c.tsm.values[i].unixnano < c.tsm.values[j].unixnano))
+//@   ensures no_eof_timestamps: all(i, 0, len(c.tsm.values), c.tsm.values[i].unixnano > (0 - 9223372036854775807 - 1))
+//@   ensures moved_on: old(0 <= c.tsm.pos && c.tsm.pos < len(c.tsm.values)) && 0 <= c.tsm.pos && c.tsm.pos < len(c.tsm.values) ==> c.tsm.values[c.tsm.pos].unixnano > old(c.tsm.values[c.tsm.pos].unixnano)
+
+//@ func (*booleanAscendingCursor).nextBoolean
+//@   props C02
+//@   nosafety
+//@   requires cache_sorted: all(i, 0, len(c.cache.values), all(j, i+1, len(c.cache.values), value_ts(c.cache.values[i]) < value_ts(c.cache.values[j])))
+//@   requires block_sorted: all(i, 0, len(c.tsm.values), all(j, i+1, len(c.tsm.values), c.tsm.values[i].unixnano < c.tsm.values[j].unixnano))
+//@   requires no_eof_timestamps: all(i, 0, len(c.cache.values), value_ts(c.cache.values[i]) > (0 - 9223372036854775807 - 1)) && all(i, 0, len(c.tsm.values), c.tsm.values[i].unixnano > (0 - 9223372036854775807 - 1))
+//@   requires positions: 0 <= c.cache.pos
+//@   ensures exhausted_only_when_both_are: (result0 == (0 - 9223372036854775807 - 1)) == old(!(c.cache.pos < len(c.cache.values)) && !(0 <= c.tsm.pos && c.tsm.pos < len(c.tsm.values)))
+//@   ensures oldest_head_first: result0 != (0 - 9223372036854775807 - 1) ==> (old(c.cache.pos < len(c.cache.values)) ==> result0 <= old(value_ts(c.cache.values[c.cache.pos]))) && (old(0 <= c.tsm.pos && c.tsm.pos < len(c.tsm.values)) ==> result0 <= old(c.tsm.values[c.tsm.pos].unixnano))
+//@   ensures is_one_of_the_heads: result0 != (0 - 9223372036854775807 - 1) ==> (old(c.cache.pos < len(c.cache.values)) && result0 == old(value_ts(c.cache.values[c.cache.pos]))) || (old(0 <= c.tsm.pos && c.tsm.pos < len(c.tsm.values)) && result0 == old(c.tsm.values[c.tsm.pos].unixnano))
+//@   ensures heads_are_newer_than_the_point: result0 != (0 - 9223372036854775807 - 1) ==> ((c.cache.pos < len(c.cache.values)) ==> value_ts(c.cache.values[c.cache.pos]) > result0) && ((0 <= c.tsm.pos && c.tsm.pos < len(c.tsm.values)) ==> c.tsm.values[c.tsm.pos].unixnano > result0)
+//@   ensures still_sorted: all(i, 0, len(c.cache.values), all(j, i+1, len(c.cache.values), value_ts(c.cache.values[i]) < value_ts(c.cache.values[j]))) && all(i, 0, len(c.tsm.values), all(j, i+1, len(c.tsm.values), c.tsm.values[i].unixnano < c.tsm.values[j].unixnano)) && all(i, 0, len(c.cache.values), value_ts(c.cache.values[i]) > (0 - 9223372036854775807 - 1)) && all(i, 0, len(c.tsm.values), c.tsm.values[i].unixnano > (0 - 9223372036854775807 - 1)) && 0 <= c.cache.pos
+
+//@ func (*booleanDescendingCursor).nextTSM
+//@   assumed
+//@   modifies *except c.cache c.cache.values[:]
+//@   ensures block_is_sorted: all(i, 0, len(c.tsm.values), all(j, i+1, len(c.tsm.values), c.tsm.values[i].unixnano < c.tsm.values[j].unixnano))
+//@   ensures no_eof_timestamps: all(i, 0, len(c.tsm.values), c.tsm.values[i].unixnano > (0 - 9223372036854775807 - 1))
+//@   ensures moved_on: old(0 <= c.tsm.pos && c.tsm.pos < len(c.tsm.values)) && 0 <= c.tsm.pos && c.tsm.pos < len(c.tsm.values) ==> c.tsm.values[c.tsm.pos].unixnano < old(c.tsm.values[c.tsm.pos].unixnano)
+
+//@ func (*booleanDescendingCursor).nextBoolean
+//@   props C02
+//@   nosafety
+//@   requires cache_sorted: all(i, 0, len(c.cache.values), all(j, i+1, len(c.cache.values), value_ts(c.cache.values[i]) < value_ts(c.cache.values[j])))
+//@   requires block_sorted: all(i, 0, len(c.tsm.values), all(j, i+1, len(c.tsm.values), c.tsm.values[i].unixnano < c.tsm.values[j].unixnano))
+//@   requires no_eof_timestamps: all(i, 0, len(c.cache.values), value_ts(c.cache.values[i]) > (0 - 9223372036854775807 - 1)) && all(i, 0, len(c.tsm.values), c.tsm.values[i].unixnano > (0 - 9223372036854775807 - 1))
+//@   requires positions: c.cache.pos < len(c.cache.values)
+//@   ensures exhausted_only_when_both_are: (result0 == (0 - 9223372036854775807 - 1)) == old(!(0 <= c.cache.pos && c.cache.pos < len(c.cache.values)) && !(0 <= c.tsm.pos && c.tsm.pos < len(c.tsm.values)))
+//@   ensures newest_head_first: result0 != (0 - 9223372036854775807 - 1) ==> (old(0 <= c.cache.pos && c.cache.pos < len(c.cache.values)) ==> result0 >= old(value_ts(c.cache.values[c.cache.pos]))) && (old(0 <= c.tsm.pos && c.tsm.pos < len(c.tsm.values)) ==> result0 >= old(c.tsm.values[c.tsm.pos].unixnano))
+//@   ensures is_one_of_the_heads: result0 != (0 - 9223372036854775807 - 1) ==> (old(0 <= c.cache.pos && c.cache.pos < len(c.cache.values)) && result0 == old(value_ts(c.cache.values[c.cache.pos]))) || (old(0 <= c.tsm.pos && c.tsm.pos < len(c.tsm.values)) && result0 == old(c.tsm.values[c.tsm.pos].unixnano))
+//@   ensures heads_are_older_than_the_point: result0 != (0 - 9223372036854775807 - 1) ==> ((0 <= c.cache.pos && c.cache.pos < len(c.cache.values)) ==> value_ts(c.cache.values[c.cache.pos]) < result0) && ((0 <= c.tsm.pos && c.tsm.pos < len(c.tsm.values)) ==> c.tsm.values[c.tsm.pos].unixnano < result0)
+//@   ensures still_sorted: all(i, 0, len(c.cache.values), all(j, i+1, len(c.cache.values), value_ts(c.cache.values[i]) < value_ts(c.cache.values[j]))) && all(i, 0, len(c.tsm.values), all(j, i+1, len(c.tsm.values), c.tsm.values[i].unixnano < c.tsm.values[j].unixnano)) && all(i, 0, len(c.cache.values), value_ts(c.cache.values[i]) > (0 - 9223372036854775807 - 1)) && all(i, 0, len(c.tsm.values), c.tsm.values[i].unixnano > (0 - 9223372036854775807 - 1)) && c.cache.pos < len(c.cache.values)
+
+//@ func (*floatAscendingCursor).nextTSM
+//@   assumed
+//@   modifies *except c.cache c.cache.values[:]
+//@   ensures block_is_sorted: all(i, 0, len(c.tsm.values), all(j, i+1, len(c.tsm.values), c.tsm.values[i].unixnano < c.tsm.values[j].unixnano))
+//@   ensures no_eof_timestamps: all(i, 0, len(c.tsm.values), c.tsm.values[i].unixnano > (0 - 9223372036854775807 - 1))
+//@   ensures moved_on: old(0 <= c.tsm.pos && c.tsm.pos < len(c.tsm.values)) && 0 <= c.tsm.pos && c.tsm.pos < len(c.tsm.values) ==> c.tsm.values[c.tsm.pos].unixnano > old(c.tsm.values[c.tsm.pos].unixnano)
+
+//@ func (*floatAscendingCursor).nextFloat
+//@   props C02
+//@   nosafety
+//@   requires cache_sorted: all(i, 0, len(c.cache.values), all(j, i+1, len(c.cache.values), value_ts(c.cache.values[i]) < value_ts(c.cache.values[j])))
+//@   requires block_sorted: all(i, 0, len(c.tsm.values), all(j, i+1, len(c.tsm.values), c.tsm.values[i].unixnano < c.tsm.values[j].unixnano))
+//@   requires no_eof_timestamps: all(i, 0, len(c.cache.values), value_ts(c.cache.values[i]) > (0 - 9223372036854775807 - 1)) && all(i, 0, len(c.tsm.values), c.tsm.values[i].unixnano > (0 - 9223372036854775807 - 1))
+//@   requires positions: 0 <= c.cache.pos
+//@   ensures exhausted_only_when_both_are: (result0 == (0 - 9223372036854775807 - 1)) == old(!(c.cache.pos < len(c.cache.values)) && !(0 <= c.tsm.pos && c.tsm.pos < len(c.tsm.values)))
+//@   ensures oldest_head_first: result0 != (0 - 9223372036854775807 - 1) ==> (old(c.cache.pos < len(c.cache.values)) ==> result0 <= old(value_ts(c.cache.values[c.cache.pos]))) && (old(0 <= c.tsm.pos && c.tsm.pos < len(c.tsm.values)) ==> result0 <= old(c.tsm.values[c.tsm.pos].unixnano))
+//@   ensures is_one_of_the_heads: result0 != (0 - 9223372036854775807 - 1) ==> (old(c.cache.pos < len(c.cache.values)) && result0 == old(value_ts(c.cache.values[c.cache.pos]))) || (old(0 <= c.tsm.pos && c.tsm.pos < len(c.tsm.values)) && result0 == old(c.tsm.values[c.tsm.pos].unixnano))
+//@   ensures heads_are_newer_than_the_point: result0 != (0 - 9223372036854775807 - 1) ==> ((c.cache.pos < len(c.cache.values)) ==> value_ts(c.cache.values[c.cache.pos]) > result0) && ((0 <= c.tsm.pos && c.tsm.pos < len(c.tsm.values)) ==> c.tsm.values[c.tsm.pos].unixnano > result0)
+//@   ensures still_sorted: all(i, 0, len(c.cache.values), all(j, i+1, len(c.cache.values), value_ts(c.cache.values[i]) < value_ts(c.cache.values[j]))) && all(i, 0, len(c.tsm.values), all(j, i+1, len(c.tsm.values), c.tsm.values[i].unixnano < c.tsm.values[j].unixnano)) && all(i, 0, len(c.cache.values), value_ts(c.cache.values[i]) > (0 - 9223372036854775807 - 1)) && all(i, 0, len(c.tsm.values), c.tsm.values[i].unixnano > (0 - 9223372036854775807 - 1)) && 0 <= c.cache.pos
+
+//@ func (*floatDescendingCursor).nextTSM
+//@   assumed
+//@   modifies *except c.cache c.cache.values[:]
+//@   ensures block_is_sorted: all(i, 0, len(c.tsm.values), all(j, i+1, len(c.tsm.values), c.tsm.values[i].unixnano < c.tsm.values[j].unixnano))
+//@   ensures no_eof_timestamps: all(i, 0, len(c.tsm.values), c.tsm.values[i].unixnano > (0 - 9223372036854775807 - 1))
+//@   ensures moved_on: old(0 <= c.tsm.pos && c.tsm.pos < len(c.tsm.values)) && 0 <= c.tsm.pos && c.tsm.pos < len(c.tsm.values) ==> c.tsm.values[c.tsm.pos].unixnano < old(c.tsm.values[c.tsm.pos].unixnano)
+
+//@ func (*floatDescendingCursor).nextFloat
+//@   props C02
+//@   nosafety
+//@   requires cache_sorted: all(i, 0, len(c.cache.values), all(j, i+1, len(c.cache.values), value_ts(c.cache.values[i]) < value_ts(c.cache.values[j])))
+//@   requires block_sorted: all(i, 0, len(c.tsm.values), all(j, i+1, len(c.tsm.values), c.tsm.values[i].unixnano < c.tsm.values[j].unixnano))
+//@   requires no_eof_timestamps: all(i, 0, len(c.cache.values), value_ts(c.cache.values[i]) > (0 - 9223372036854775807 - 1)) && all(i, 0, len(c.tsm.values), c.tsm.values[i].unixnano > (0 - 9223372036854775807 - 1))
+//@   requires positions: c.cache.pos < len(c.cache.values)
+//@   ensures exhausted_only_when_both_are: (result0 == (0 - 9223372036854775807 - 1)) == old(!(0 <= c.cache.pos && c.cache.pos < len(c.cache.values)) && !(0 <= c.tsm.pos && c.tsm.pos < len(c.tsm.values)))
+//@   ensures newest_head_first: result0 != (0 - 9223372036854775807 - 1) ==> (old(0 <= c.cache.pos && c.cache.pos < len(c.cache.values)) ==> result0 >= old(value_ts(c.cache.values[c.cache.pos]))) && (old(0 <= c.tsm.pos && c.tsm.pos < len(c.tsm.values)) ==> result0 >= old(c.tsm.values[c.tsm.pos].unixnano))
+//@   ensures is_one_of_the_heads: result0 != (0 - 9223372036854775807 - 1) ==> (old(0 <= c.cache.pos && c.cache.pos < len(c.cache.values)) && result0 == old(value_ts(c.cache.values[c.cache.pos]))) || (old(0 <= c.tsm.pos && c.tsm.pos < len(c.tsm.values)) && result0 == old(c.tsm.values[c.tsm.pos].unixnano))
+//@   ensures heads_are_older_than_the_point: result0 != (0 - 9223372036854775807 - 1) ==> ((0 <= c.cache.pos && c.cache.pos < len(c.cache.values)) ==> value_ts(c.cache.values[c.cache.pos]) < result0) && ((0 <= c.tsm.pos && c.tsm.pos < len(c.tsm.values)) ==> c.tsm.values[c.tsm.pos].unixnano < result0)
+//@   ensures still_sorted: all(i, 0, len(c.cache.values), all(j, i+1, len(c.cache.values), value_ts(c.cache.values[i]) < value_ts(c.cache.values[j]))) && all(i, 0, len(c.tsm.values), all(j, i+1, len(c.tsm.values), c.tsm.values[i].unixnano < c.tsm.values[j].unixnano)) && all(i, 0, len(c.cache.values), value_ts(c.cache.values[i]) > (0 - 9223372036854775807 - 1)) && all(i, 0, len(c.tsm.values), c.tsm.values[i].unixnano > (0 - 9223372036854775807 - 1)) && c.cache.pos < len(c.cache.values)
+
+//@ func (*integerAscendingCursor).nextTSM
+//@   assumed
+//@   modifies *except c.cache c.cache.values[:]
+//@   ensures block_is_sorted: all(i, 0, len(c.tsm.values), all(j, i+1, len(c.tsm.values), c.tsm.values[i].unixnano < c.tsm.values[j].unixnano))
+//@   ensures no_eof_timestamps: all(i, 0, len(c.tsm.values), c.tsm.values[i].unixnano > (0 - 9223372036854775807 - 1))
+//@   ensures moved_on: old(0 <= c.tsm.pos && c.tsm.pos < len(c.tsm.values)) && 0 <= c.tsm.pos && c.tsm.pos < len(c.tsm.values) ==> c.tsm.values[c.tsm.pos].unixnano > old(c.tsm.values[c.tsm.pos].unixnano)
+
+//@ func (*integerAscendingCursor).nextInteger
+//@   props C02
+//@   nosafety
+//@   requires cache_sorted: all(i, 0, len(c.cache.values), all(j, i+1, len(c.cache.values), value_ts(c.cache.values[i]) < value_ts(c.cache.values[j])))
+//@   requires block_sorted: all(i, 0, len(c.tsm.values), all(j, i+1, len(c.tsm.values), c.tsm.values[i].unixnano < c.tsm.values[j].unixnano))
+//@   requires no_eof_timestamps: all(i, 0, len(c.cache.values), value_ts(c.cache.values[i]) > (0 - 9223372036854775807 - 1)) && all(i, 0, len(c.tsm.values), c.tsm.values[i].unixnano > (0 - 9223372036854775807 - 1))
+//@   requires positions: 0 <= c.cache.pos
+//@   ensures exhausted_only_when_both_are: (result0 == (0 - 9223372036854775807 - 1)) == old(!(c.cache.pos < len(c.cache.values)) && !(0 <= c.tsm.pos && c.tsm.pos < len(c.tsm.values)))
+//@   ensures oldest_head_first: result0 != (0 - 9223372036854775807 - 1) ==> (old(c.cache.pos < len(c.cache.values)) ==> result0 <= old(value_ts(c.cache.values[c.cache.pos]))) && (old(0 <= c.tsm.pos && c.tsm.pos < len(c.tsm.values)) ==> result0 <= old(c.tsm.values[c.tsm.pos].unixnano))
+//@   ensures is_one_of_the_heads: result0 != (0 - 9223372036854775807 - 1) ==> (old(c.cache.pos < len(c.cache.values)) && result0 == old(value_ts(c.cache.values[c.cache.pos]))) || (old(0 <= c.tsm.pos && c.tsm.pos < len(c.tsm.values)) && result0 == old(c.tsm.values[c.tsm.pos].unixnano))
+//@   ensures heads_are_newer_than_the_point: result0 != (0 - 9223372036854775807 - 1) ==> ((c.cache.pos < len(c.cache.values)) ==> value_ts(c.cache.values[c.cache.pos]) > result0) && ((0 <= c.tsm.pos && c.tsm.pos < len(c.tsm.values)) ==> c.tsm.values[c.tsm.pos].unixnano > result0)
+//@   ensures still_sorted: all(i, 0, len(c.cache.values), all(j, i+1, len(c.cache.values), value_ts(c.cache.values[i]) < value_ts(c.cache.values[j]))) && all(i, 0, len(c.tsm.values), all(j, i+1, len(c.tsm.values), c.tsm.values[i].unixnano < c.tsm.values[j].unixnano)) && all(i, 0, len(c.cache.values), value_ts(c.cache.values[i]) > (0 - 9223372036854775807 - 1)) && all(i, 0, len(c.tsm.values), c.tsm.values[i].unixnano > (0 - 9223372036854775807 - 1)) && 0 <= c.cache.pos
+
+//@ func (*integerDescendingCursor).nextTSM
+//@   assumed
+//@   modifies *except c.cache c.cache.values[:]
+//@   ensures block_is_sorted: all(i, 0, len(c.tsm.values), all(j, i+1, len(c.tsm.values), c.tsm.values[i].unixnano < c.tsm.values[j].unixnano))
+//@   ensures no_eof_timestamps: all(i, 0, len(c.tsm.values), c.tsm.values[i].unixnano > (0 - 9223372036854775807 - 1))
+//@   ensures moved_on: old(0 <= c.tsm.pos && c.tsm.pos < len(c.tsm.values)) && 0 <= c.tsm.pos && c.tsm.pos < len(c.tsm.values) ==> c.tsm.values[c.tsm.pos].unixnano < old(c.tsm.values[c.tsm.pos].unixnano)
+
+//@ func (*integerDescendingCursor).nextInteger
+//@   props C02
+//@   nosafety
+//@   requires cache_sorted: all(i, 0, len(c.cache.values), all(j, i+1, len(c.cache.values), value_ts(c.cache.values[i]) < value_ts(c.cache.values[j])))
+//@   requires block_sorted: all(i, 0, len(c.tsm.values), all(j, i+1, len(c.tsm.values), c.tsm.values[i].unixnano < c.tsm.values[j].unixnano))
+//@   requires no_eof_timestamps: all(i, 0, len(c.cache.values), value_ts(c.cache.values[i]) > (0 - 9223372036854775807 - 1)) && all(i, 0, len(c.tsm.values), c.tsm.values[i].unixnano > (0 - 9223372036854775807 - 1))
+//@   requires positions: c.cache.pos < len(c.cache.values)
+//@   ensures exhausted_only_when_both_are: (result0 == (0 - 9223372036854775807 - 1)) == old(!(0 <= c.cache.pos && c.cache.pos < len(c.cache.values)) && !(0 <= c.tsm.pos && c.tsm.pos < len(c.tsm.values)))
+//@   ensures newest_head_first: result0 != (0 - 9223372036854775807 - 1) ==> (old(0 <= c.cache.pos && c.cache.pos < len(c.cache.values)) ==> result0 >= old(value_ts(c.cache.values[c.cache.pos]))) && (old(0 <= c.tsm.pos && c.tsm.pos < len(c.tsm.values)) ==> result0 >= old(c.tsm.values[c.tsm.pos].unixnano))
+//@   ensures is_one_of_the_heads: result0 != (0 - 9223372036854775807 - 1) ==> (old(0 <= c.cache.pos && c.cache.pos < len(c.cache.values)) && result0 == old(value_ts(c.cache.values[c.cache.pos]))) || (old(0 <= c.tsm.pos && c.tsm.pos < len(c.tsm.values)) && result0 == old(c.tsm.values[c.tsm.pos].unixnano))
+//@   ensures heads_are_older_than_the_point: result0 != (0 - 9223372036854775807 - 1) ==> ((0 <= c.cache.pos && c.cache.pos < len(c.cache.values)) ==> value_ts(c.cache.values[c.cache.pos]) < result0) && ((0 <= c.tsm.pos && c.tsm.pos < len(c.tsm.values)) ==> c.tsm.values[c.tsm.pos].unixnano < result0)
+//@   ensures still_sorted: all(i, 0, len(c.cache.values), all(j, i+1, len(c.cache.values), value_ts(c.cache.values[i]) < value_ts(c.cache.values[j]))) && all(i, 0, len(c.tsm.values), all(j, i+1, len(c.tsm.values), c.tsm.values[i].unixnano < c.tsm.values[j].unixnano)) && all(i, 0, len(c.cache.values), value_ts(c.cache.values[i]) > (0 - 9223372036854775807 - 1)) && all(i, 0, len(c.tsm.values), c.tsm.values[i].unixnano > (0 - 9223372036854775807 - 1)) && c.cache.pos < len(c.cache.values)
+
+//@ func (*stringAscendingCursor).nextTSM
+//@   assumed
+//@   modifies *except c.cache c.cache.values[:]
+//@   ensures block_is_sorted: all(i, 0, len(c.tsm.values), all(j, i+1, len(c.tsm.values), c.tsm.values[i].unixnano < c.tsm.values[j].unixnano))
+//@   ensures no_eof_timestamps: all(i, 0, len(c.tsm.values), c.tsm.values[i].unixnano > (0 - 9223372036854775807 - 1))
+//@   ensures moved_on: old(0 <= c.tsm.pos && c.tsm.pos < len(c.tsm.values)) && 0 <= c.tsm.pos && c.tsm.pos < len(c.tsm.values) ==> c.tsm.values[c.tsm.pos].unixnano > old(c.tsm.values[c.tsm.pos].unixnano)
+
+//@ func (*stringAscendingCursor).nextString
+//@   props C02
+//@   nosafety
+//@   requires cache_sorted: all(i, 0, len(c.cache.values), all(j, i+1, len(c.cache.values), value_ts(c.cache.values[i]) < value_ts(c.cache.values[j])))
+//@   requires block_sorted: all(i, 0, len(c.tsm.values), all(j, i+1, len(c.tsm.values), c.tsm.values[i].unixnano < c.tsm.values[j].unixnano))
+//@   requires no_eof_timestamps: all(i, 0, len(c.cache.values), value_ts(c.cache.values[i]) > (0 - 9223372036854775807 - 1)) && all(i, 0, len(c.tsm.values), c.tsm.values[i].unixnano > (0 - 9223372036854775807 - 1))
+//@   requires positions: 0 <= c.cache.pos
+//@   ensures exhausted_only_when_both_are: (result0 == (0 - 9223372036854775807 - 1)) == old(!(c.cache.pos < len(c.cache.values)) && !(0 <= c.tsm.pos && c.tsm.pos < len(c.tsm.values)))
+//@   ensures oldest_head_first: result0 != (0 - 9223372036854775807 - 1) ==> (old(c.cache.pos < len(c.cache.values)) ==> result0 <= old(value_ts(c.cache.values[c.cache.pos]))) && (old(0 <= c.tsm.pos && c.tsm.pos < len(c.tsm.values)) ==> result0 <= old(c.tsm.values[c.tsm.pos].unixnano))
+//@   ensures is_one_of_the_heads: result0 != (0 - 9223372036854775807 - 1) ==> (old(c.cache.pos < len(c.cache.values)) && result0 == old(value_ts(c.cache.values[c.cache.pos]))) || (old(0 <= c.tsm.pos && c.tsm.pos < len(c.tsm.values)) && result0 == old(c.tsm.values[c.tsm.pos].unixnano))
+//@   ensures heads_are_newer_than_the_point: result0 != (0 - 9223372036854775807 - 1) ==> ((c.cache.pos < len(c.cache.values)) ==> value_ts(c.cache.values[c.cache.pos]) > result0) && ((0 <= c.tsm.pos && c.tsm.pos < len(c.tsm.values)) ==> c.tsm.values[c.tsm.pos].unixnano > result0)
+//@   ensures still_sorted: all(i, 0, len(c.cache.values), all(j, i+1, len(c.cache.values), value_ts(c.cache.values[i]) < value_ts(c.cache.values[j]))) && all(i, 0, len(c.tsm.values), all(j, i+1, len(c.tsm.values), c.tsm.values[i].unixnano < c.tsm.values[j].unixnano)) && all(i, 0, len(c.cache.values), value_ts(c.cache.values[i]) > (0 - 9223372036854775807 - 1)) && all(i, 0, len(c.tsm.values), c.tsm.values[i].unixnano > (0 - 9223372036854775807 - 1)) && 0 <= c.cache.pos
+
+//@ func (*stringDescendingCursor).nextTSM
+//@   assumed
+//@   modifies *except c.cache c.cache.values[:]
+//@   ensures block_is_sorted: all(i, 0, len(c.tsm.values), all(j, i+1, len(c.tsm.values), c.tsm.values[i].unixnano < c.tsm.values[j].unixnano))
+//@   ensures no_eof_timestamps: all(i, 0, len(c.tsm.values), c.tsm.values[i].unixnano > (0 - 9223372036854775807 - 1))
+//@   ensures moved_on: old(0 <= c.tsm.pos && c.tsm.pos < len(c.tsm.values)) && 0 <= c.tsm.pos && c.tsm.pos < len(c.tsm.values) ==> c.tsm.values[c.tsm.pos].unixnano < old(c.tsm.values[c.tsm.pos].unixnano)
+
+//@ func (*stringDescendingCursor).nextString
+//@   props C02
+//@   nosafety
+//@   requires cache_sorted: all(i, 0, len(c.cache.values), all(j, i+1, len(c.cache.values), value_ts(c.cache.values[i]) < value_ts(c.cache.values[j])))
+//@   requires block_sorted: all(i, 0, len(c.tsm.values), all(j, i+1, len(c.tsm.values), c.tsm.values[i].unixnano < c.tsm.values[j].unixnano))
+//@   requires no_eof_timestamps: all(i, 0, len(c.cache.values), value_ts(c.cache.values[i]) > (0 - 9223372036854775807 - 1)) && all(i, 0, len(c.tsm.values), c.tsm.values[i].unixnano > (0 - 9223372036854775807 - 1))
+//@   requires positions: c.cache.pos < len(c.cache.values)
+//@   ensures exhausted_only_when_both_are: (result0 == (0 - 9223372036854775807 - 1)) == old(!(0 <= c.cache.pos && c.cache.pos < len(c.cache.values)) && !(0 <= c.tsm.pos && c.tsm.pos < len(c.tsm.values)))
+//@   ensures newest_head_first: result0 != (0 - 9223372036854775807 - 1) ==> (old(0 <= c.cache.pos && c.cache.pos < len(c.cache.values)) ==> result0 >= old(value_ts(c.cache.values[c.cache.pos]))) && (old(0 <= c.tsm.pos && c.tsm.pos < len(c.tsm.values)) ==> result0 >= old(c.tsm.values[c.tsm.pos].unixnano))
+//@   ensures is_one_of_the_heads: result0 != (0 - 9223372036854775807 - 1) ==> (old(0 <= c.cache.pos && c.cache.pos < len(c.cache.values)) && result0 == old(value_ts(c.cache.values[c.cache.pos]))) || (old(0 <= c.tsm.pos && c.tsm.pos < len(c.tsm.values)) && result0 == old(c.tsm.values[c.tsm.pos].unixnano))
+//@   ensures heads_are_older_than_the_point: result0 != (0 - 9223372036854775807 - 1) ==> ((0 <= c.cache.pos && c.cache.pos < len(c.cache.values)) ==> value_ts(c.cache.values[c.cache.pos]) < result0) && ((0 <= c.tsm.pos && c.tsm.pos < len(c.tsm.values)) ==> c.tsm.values[c.tsm.pos].unixnano < result0)
+//@   ensures still_sorted: all(i, 0, len(c.cache.values), all(j, i+1, len(c.cache.values), value_ts(c.cache.values[i]) < value_ts(c.cache.values[j]))) && all(i, 0, len(c.tsm.values), all(j, i+1, len(c.tsm.values), c.tsm.values[i].unixnano < c.tsm.values[j].unixnano)) && all(i, 0, len(c.cache.values), value_ts(c.cache.values[i]) > (0 - 9223372036854775807 - 1)) && all(i, 0, len(c.tsm.values), c.tsm.values[i].unixnano > (0 - 9223372036854775807 - 1)) && c.cache.pos < len(c.cache.values)
+
+//@ func (*unsignedAscendingCursor).nextTSM
+//@   assumed
+//@   modifies *except c.cache c.cache.values[:]
+//@   ensures block_is_sorted: all(i, 0, len(c.tsm.values), all(j, i+1, len(c.tsm.values), c.tsm.values[i].unixnano < c.tsm.values[j].unixnano))
+//@   ensures no_eof_timestamps: all(i, 0, len(c.tsm.values), c.tsm.values[i].unixnano > (0 - 9223372036854775807 - 1))
+//@   ensures moved_on: old(0 <= c.tsm.pos && c.tsm.pos < len(c.tsm.values)) && 0 <= c.tsm.pos && c.tsm.pos < len(c.tsm.values) ==> c.tsm.values[c.tsm.pos].unixnano > old(c.tsm.values[c.tsm.pos].unixnano)
+
+//@ func (*unsignedAscendingCursor).nextUnsigned
+//@   props C02
+//@   nosafety
+//@   requires cache_sorted: all(i, 0, len(c.cache.values), all(j, i+1, len(c.cache.values), value_ts(c.cache.values[i]) < value_ts(c.cache.values[j])))
+//@   requires block_sorted: all(i, 0, len(c.tsm.values), all(j, i+1, len(c.tsm.values), c.tsm.values[i].unixnano < c.tsm.values[j].unixnano))
+//@   requires no_eof_timestamps: all(i, 0, len(c.cache.values), value_ts(c.cache.values[i]) > (0 - 9223372036854775807 - 1)) && all(i, 0, len(c.tsm.values), c.tsm.values[i].unixnano > (0 - 9223372036854775807 - 1))
+//@   requires positions: 0 <= c.cache.pos
+//@   ensures exhausted_only_when_both_are: (result0 == (0 - 9223372036854775807 - 1)) == old(!(c.cache.pos < len(c.cache.values)) && !(0 <= c.tsm.pos && c.tsm.pos < len(c.tsm.values)))
+//@   ensures oldest_head_first: result0 != (0 - 9223372036854775807 - 1) ==> (old(c.cache.pos < len(c.cache.values)) ==> result0 <= old(value_ts(c.cache.values[c.cache.pos]))) && (old(0 <= c.tsm.pos && c.tsm.pos < len(c.tsm.values)) ==> result0 <= old(c.tsm.values[c.tsm.pos].unixnano))
+//@   ensures is_one_of_the_heads: result0 != (0 - 9223372036854775807 - 1) ==> (old(c.cache.pos < len(c.cache.values)) && result0 == old(value_ts(c.cache.values[c.cache.pos]))) || (old(0 <= c.tsm.pos && c.tsm.pos < len(c.tsm.values)) && result0 == old(c.tsm.values[c.tsm.pos].unixnano))
+//@   ensures heads_are_newer_than_the_point: result0 != (0 - 9223372036854775807 - 1) ==> ((c.cache.pos < len(c.cache.values)) ==> value_ts(c.cache.values[c.cache.pos]) > result0) && ((0 <= c.tsm.pos && c.tsm.pos < len(c.tsm.values)) ==> c.tsm.values[c.tsm.pos].unixnano > result0)
+//@   ensures still_sorted: all(i, 0, len(c.cache.values), all(j, i+1, len(c.cache.values), value_ts(c.cache.values[i]) < value_ts(c.cache.values[j]))) && all(i, 0, len(c.tsm.values), all(j, i+1, len(c.tsm.values), c.tsm.values[i].unixnano < c.tsm.values[j].unixnano)) && all(i, 0, len(c.cache.values), value_ts(c.cache.values[i]) > (0 - 9223372036854775807 - 1)) && all(i, 0, len(c.tsm.values), c.tsm.values[i].unixnano > (0 - 9223372036854775807 - 1)) && 0 <= c.cache.pos
+
+//@ func (*unsignedDescendingCursor).nextTSM
+//@   assumed
+//@   modifies *except c.cache c.cache.values[:]
+//@   ensures block_is_sorted: all(i, 0, len(c.tsm.values), all(j, i+1, len(c.tsm.values), c.tsm.values[i].unixnano < c.tsm.values[j].unixnano))
+//@   ensures no_eof_timestamps: all(i, 0, len(c.tsm.values), c.tsm.values[i].unixnano > (0 - 9223372036854775807 - 1))
+//@   ensures moved_on: old(0 <= c.tsm.pos && c.tsm.pos < len(c.tsm.values)) && 0 <= c.tsm.pos && c.tsm.pos < len(c.tsm.values) ==> c.tsm.values[c.tsm.pos].unixnano < old(c.tsm.values[c.tsm.pos].unixnano)
+
+//@ func (*unsignedDescendingCursor).nextUnsigned
+//@   props C02
+//@   nosafety
+//@   requires cache_sorted: all(i, 0, len(c.cache.values), all(j, i+1, len(c.cache.values), value_ts(c.cache.values[i]) < value_ts(c.cache.values[j])))
+//@   requires block_sorted: all(i, 0, len(c.tsm.values), all(j, i+1, len(c.tsm.values), c.tsm.values[i].unixnano < c.tsm.values[j].unixnano))
+//@   requires no_eof_timestamps: all(i, 0, len(c.cache.values), value_ts(c.cache.values[i]) > (0 - 9223372036854775807 - 1)) && all(i, 0, len(c.tsm.values), c.tsm.values[i].unixnano > (0 - 9223372036854775807 - 1))
+//@   requires positions: c.cache.pos < len(c.cache.values)
+//@   ensures exhausted_only_when_both_are: (result0 == (0 - 9223372036854775807 - 1)) == old(!(0 <= c.cache.pos && c.cache.pos < len(c.cache.values)) && !(0 <= c.tsm.pos && c.tsm.pos < len(c.tsm.values)))
+//@   ensures newest_head_first: result0 != (0 - 9223372036854775807 - 1) ==> (old(0 <= c.cache.pos && c.cache.pos < len(c.cache.values)) ==> result0 >= old(value_ts(c.cache.values[c.cache.pos]))) && (old(0 <= c.tsm.pos && c.tsm.pos < len(c.tsm.values)) ==> result0 >= old(c.tsm.values[c.tsm.pos].unixnano))
+//@   ensures is_one_of_the_heads: result0 != (0 - 9223372036854775807 - 1) ==> (old(0 <= c.cache.pos && c.cache.pos < len(c.cache.values)) && result0 == old(value_ts(c.cache.values[c.cache.pos]))) || (old(0 <= c.tsm.pos && c.tsm.pos < len(c.tsm.values)) && result0 == old(c.tsm.values[c.tsm.pos].unixnano))
+//@   ensures heads_are_older_than_the_point: result0 != (0 - 9223372036854775807 - 1) ==> ((0 <= c.cache.pos && c.cache.pos < len(c.cache.values)) ==> value_ts(c.cache.values[c.cache.pos]) < result0) && ((0 <= c.tsm.pos && c.tsm.pos < len(c.tsm.values)) ==> c.tsm.values[c.tsm.pos].unixnano < result0)
+//@   ensures still_sorted: all(i, 0, len(c.cache.values), all(j, i+1, len(c.cache.values), value_ts(c.cache.values[i]) < value_ts(c.cache.values[j]))) && all(i, 0, len(c.tsm.values), all(j, i+1, len(c.tsm.values), c.tsm.values[i].unixnano < c.tsm.values[j].unixnano)) && all(i, 0, len(c.cache.values), value_ts(c.cache.values[i]) > (0 - 9223372036854775807 - 1)) && all(i, 0, len(c.tsm.values), c.tsm.values[i].unixnano > (0 - 9223372036854775807 - 1)) && c.cache.pos < len(c.cache.values)
+
 // ---- GENERATED-CURSORS END ----
